@@ -280,18 +280,96 @@ func (w *World) origin(v ssa.Value) ssa.Value {
 		if !ok || u.Op != token.MUL {
 			return v
 		}
-		switch u.X.(type) {
+		switch x := u.X.(type) {
 		case *ssa.Alloc, *ssa.FreeVar:
 			st := w.cellStores(u.X)
 			if len(st) != 1 {
 				return v
 			}
 			v = st[0]
+		case *ssa.FieldAddr:
+			// a field of a request object (a fresh struct bound as the receiver of an offered
+			// method value) that is stored exactly once in the whole module
+			sv := w.messageFieldValue(x)
+			if sv == nil {
+				return v
+			}
+			v = sv
 		default:
 			return v
 		}
 	}
 	return v
+}
+
+// messageStructs: named struct types of which a freshly allocated value is bound as the
+// receiver of a method value (`req.handle`), i.e. request objects travelling to an actor.
+func (w *World) messageStructs() map[string]bool {
+	if w.msgStructs != nil {
+		return w.msgStructs
+	}
+	w.msgStructs = map[string]bool{}
+	w.msgFieldStores = map[string][]*ssa.Store{}
+	for _, fn := range w.ModFns {
+		for _, b := range fn.Blocks {
+			for _, in := range b.Instrs {
+				mc, ok := in.(*ssa.MakeClosure)
+				if !ok || len(mc.Bindings) != 1 {
+					continue
+				}
+				f, _ := mc.Fn.(*ssa.Function)
+				if f == nil || !strings.HasPrefix(f.Synthetic, "bound method wrapper") {
+					continue
+				}
+				al, ok := mc.Bindings[0].(*ssa.Alloc)
+				if !ok || !al.Heap || structOf(al.Type()) == nil {
+					continue
+				}
+				switch tn := typeName(al.Type()); tn {
+				case tPState, tBState, tBar, "mpb.Progress":
+				default:
+					w.msgStructs[tn] = true
+				}
+			}
+		}
+	}
+	if len(w.msgStructs) == 0 {
+		return w.msgStructs
+	}
+	for _, fn := range w.ModFns {
+		for _, b := range fn.Blocks {
+			for _, in := range b.Instrs {
+				if st, ok := in.(*ssa.Store); ok {
+					if f, ok := fieldOf(st.Addr); ok && w.msgStructs[f.Owner] {
+						w.msgFieldStores[f.String()] = append(w.msgFieldStores[f.String()], st)
+					}
+				}
+			}
+		}
+	}
+	return w.msgStructs
+}
+
+// messageFieldValue: the single value ever stored to the field addressed by fa, when fa's
+// struct is a request object type; nil otherwise.
+func (w *World) messageFieldValue(fa *ssa.FieldAddr) ssa.Value {
+	f, ok := fieldOf(fa)
+	if !ok || !w.messageStructs()[f.Owner] {
+		return nil
+	}
+	st := w.msgFieldStores[f.String()]
+	if len(st) != 1 {
+		return nil
+	}
+	// the store initialises a fresh object in its constructor function
+	sf, ok := st[0].Addr.(*ssa.FieldAddr)
+	if !ok {
+		return nil
+	}
+	if _, ok := sf.X.(*ssa.Alloc); !ok {
+		return nil
+	}
+	return st[0].Val
 }
 
 // isParam: v originates from parameter #idx (receiver counted) of fn.
